@@ -260,7 +260,7 @@ _IMPL_REJ = re.compile(r'<<"IMPL-REJECT", ("?[^,]*"?), "line", (\d+), "((?:[^"\\
 _IMPL_ACC = re.compile(r'<<"IMPL-ACCEPTED", (\d+), "of", (\d+)>>')
 
 
-def validate_impl(traces, jobs=8, batch=60, keep_dir=None, timeout=1800):
+def validate_impl(traces, jobs=8, batch=60, keep_dir=None, timeout=420):
     """traces: list of (tid, recorded trace) of impl-eligible scenarios.  Returns (accepted ids, {rejected id: (line, logged line)}, states)."""
     d = keep_dir or workdir('impl')
     batches = [traces[i:i + batch] for i in range(0, len(traces), batch)]
@@ -290,6 +290,12 @@ def validate_impl(traces, jobs=8, batch=60, keep_dir=None, timeout=1800):
     with ThreadPoolExecutor(max_workers=jobs) as ex:
         for item, (out, rc, wall) in zip(files, ex.map(one, files)):
             m = _IMPL_ACC.search(out)
+            if rc == -9:
+                # the search for an explanation of a diverging trace can blow up (up to 10 unlogged steps between two lines): conformance is
+                # not a verdict, so a batch that exceeds its budget is reported as not explained and the check goes on
+                for t in item[1]:
+                    rejected[t] = (0, {'a': 'conformance search exceeded its time budget (%ds) for this batch' % timeout})
+                continue
             if rc != 0 or not m:
                 ls = [x for x in out.splitlines() if not re.match(r'^\d+\. Line', x)]
                 k = next((j for j, x in enumerate(ls) if x.startswith('Error:') or 'Exception' in x), max(0, len(ls) - 60))
